@@ -1328,6 +1328,7 @@ func c03Union(c *Ctx, r *Report, u *FuncRef) {
 	}
 	var base types.Object // parameter the result starts from
 	var outer *ast.RangeStmt
+	outerLabel := ""
 	for _, s := range u.Decl.Body.List {
 		if as, ok := s.(*ast.AssignStmt); ok && len(as.Lhs) == 1 && identObj(info, as.Lhs[0]) == res && res != nil {
 			base = identObj(info, as.Rhs[0])
@@ -1354,6 +1355,11 @@ func c03Union(c *Ctx, r *Report, u *FuncRef) {
 		if rs, ok := s.(*ast.RangeStmt); ok {
 			outer = rs
 		}
+		if ls, ok := s.(*ast.LabeledStmt); ok {
+			if rs, ok := ls.Stmt.(*ast.RangeStmt); ok {
+				outer, outerLabel = rs, ls.Label.Name
+			}
+		}
 	}
 	if bad == "" && (base == nil || (base != ps[0] && base != ps[1])) {
 		bad = "the result does not start as a copy of one of the arguments"
@@ -1373,6 +1379,7 @@ func c03Union(c *Ctx, r *Report, u *FuncRef) {
 			// flag reset per element, inner loop over base (or result) sets it on equality, append iff !flag
 			var flag types.Object
 			resetOK, innerOK, appendOK := false, false, false
+			skipForm := false
 			for _, s := range outer.Body.List {
 				switch x := s.(type) {
 				case *ast.AssignStmt:
@@ -1391,6 +1398,13 @@ func c03Union(c *Ctx, r *Report, u *FuncRef) {
 								if be, ok := unparen(is.Cond).(*ast.BinaryExpr); ok && be.Op == token.EQL {
 									a, b := identObj(info, be.X), identObj(info, be.Y)
 									if (a == v && b == w) || (a == w && b == v) {
+										// `continue <outer label>` on a match: the element is skipped, nothing after the
+										// inner loop runs for it
+										if len(is.Body.List) == 1 && outerLabel != "" {
+											if br, ok := is.Body.List[0].(*ast.BranchStmt); ok && br.Tok == token.CONTINUE && br.Label != nil && br.Label.Name == outerLabel {
+												resetOK, innerOK, skipForm = true, true, true
+											}
+										}
 										for _, bs := range is.Body.List {
 											if as, ok := bs.(*ast.AssignStmt); ok && len(as.Lhs) == 1 && identObj(info, as.Lhs[0]) == flag {
 												if cv := constOf(info, as.Rhs[0]); cv != nil && cv.Kind() == constant.Bool && constant.BoolVal(cv) {
@@ -1430,6 +1444,17 @@ func c03Union(c *Ctx, r *Report, u *FuncRef) {
 									appendOK = true
 								}
 							}
+						}
+					}
+				}
+			}
+			if skipForm {
+				// the append is the unconditional last statement of the outer body
+				if n := len(outer.Body.List); n > 0 {
+					if as, ok := outer.Body.List[n-1].(*ast.AssignStmt); ok && len(as.Lhs) == 1 && identObj(info, as.Lhs[0]) == res {
+						if call, ok := as.Rhs[0].(*ast.CallExpr); ok && builtinName(info, call) == "append" && len(call.Args) == 2 &&
+							identObj(info, call.Args[0]) == res && identObj(info, call.Args[1]) == v {
+							appendOK = true
 						}
 					}
 				}
